@@ -325,6 +325,12 @@ def cdf_checks(obj, case, fnd):
             return
     # inverse: round trips and monotonicity, to the documented accuracy of erf_inv (4.5e-8 relative on x)
     ys = [1e-9, 1e-6, 1e-3, 0.01, 0.1, 0.125, 0.2, 0.3, 0.4, 0.5, 0.6, 0.7, 0.8, 0.875, 0.9, 0.96875, 0.99, 0.999, 1 - 1e-6]
+    # erf_inv has a documented relative error of 4.5e-8 on x; for a truncated normal the resulting error in the
+    # probability is divided by the mass of the interval
+    amp = 1.0
+    if c == "DistNormalTrunc":
+        mass = 0.5 * (math.erf((ps[3] - mu) / (math.sqrt(2.0) * sigma)) - math.erf((ps[2] - mu) / (math.sqrt(2.0) * sigma)))
+        amp = max(1.0, 1.0 / max(mass, 1e-6))
     prev = None
     for y in ys:
         try:
@@ -337,7 +343,7 @@ def cdf_checks(obj, case, fnd):
         except Exception as exc:  # noqa
             fnd.append(["cdf-raises", f"cumulative_probability({x!r}) raised {type(exc).__name__}"])
             return
-        if abs(y2 - y) > 5e-6 * min(y, 1 - y) + 2e-7:      # erf_inv: documented relative error 4.5e-8 on x
+        if abs(y2 - y) > 5e-6 * min(y, 1 - y) + 2e-7 * amp:      # erf_inv: documented relative error 4.5e-8 on x
             fnd.append(["cdf-inverse-cdf-not-inverse", f"cumulative_probability(inverse_cumulative_probability({y!r})) = {y2!r}"])
             return
         if prev is not None and x < prev[1] - 1e-7 * (1.0 + abs(prev[1])):
